@@ -618,6 +618,82 @@ def r15_5(ctx, prs):
     ctx.floor(rid, n, 1, "classes with state-dependent sections")
 
 
+# (class, field) -> why a later write after the restoring one is fine
+R156_EXC = {
+    ("Congruence_System", "space_dimension_"): "insert_verbatim() writes the dimension only to grow it when a row is larger than the system; the rows of a dump are not larger than the dimension dumped with them, so the restored value stands",
+    ("Linear_System", "space_dimension_"): "insert() writes the dimension only to grow it when a row is larger than the system; the rows of a dump are not larger than the dimension dumped with them",
+    ("MIP_Problem", "inherited_constraints"): "deliberate and documented at the site: the loaded problem owns every constraint it read (the destructor deletes exactly the non-inherited ones), so the count is read for format agreement and then set to zero",
+}
+
+
+def r15_6(ctx):
+    from rules.c14 import units_alloc
+    from pplv import effects as E
+    from pplv import flow
+    rid = "R15.6"
+    ctx.rule(rid, "restored members are final: once ascii_load has given a data member the value read from the stream (assignment from a local that holds it, or `s >> member`), no later step of the function writes that member again — neither another assignment nor a call on *this whose may-write summary (same-class callees, depth 3) contains it; e.g. the `sorted` flag of a Linear_System must be restored after the rows were inserted, because insert() recomputes it from row order, pending rows included")
+    fx = ctx.extract(units_alloc())
+    sums = {}
+    n = 0
+    seen = set()
+    for f in fx.functions:
+        if f.name != "ascii_load" or not f.clsn or not f.cfg or len(f.params) != 1:
+            continue
+        if (f.relfile, f.line) in seen:
+            continue
+        seen.add((f.relfile, f.line))
+        sm = sums.setdefault(f.clsn, E.Summaries(fx, f.clsn))
+        events = []
+        for a in f.walk():
+            if a["k"] == "assign":
+                lhs, rhs = f.deref(a["c"][0]), f.deref(a["c"][1])
+                if lhs is None or rhs is None:
+                    continue
+                r = f.root(lhs)
+                if len(r) == 2 and r[0] == "this" and any(x["k"] == "ref" and x.get("dk") == "local" for x in f.walk(rhs)):
+                    events.append((a, r[1]))
+            elif a["k"] == "ocall" and a.get("op") == ">>":
+                tgt = f.deref(a["c"][-1])
+                if tgt is not None:
+                    r = f.root(tgt)
+                    if len(r) == 2 and r[0] == "this":
+                        events.append((a, r[1]))
+        for a, fld in events:
+            pos = f.cfg_pos(a)
+            if pos is None:
+                continue
+            n += 1
+            inst = "%s::ascii_load restores %s (line %s)" % (f.clsn, fld, a.get("l"))
+
+            def rewrites(x, fld=fld, a=a):
+                if x["i"] == a["i"] or f.within(x, a):
+                    return False
+                if x["k"] == "assign":
+                    l = f.deref(x["c"][0])
+                    return l is not None and f.root(l) == ("this", fld)
+                if x["k"] == "ocall" and x.get("op") == ">>":
+                    t = f.deref(x["c"][-1])
+                    return t is not None and f.root(t) == ("this", fld)
+                if x["k"] == "mcall":
+                    o = f.call_obj(x)
+                    if o is not None and f.root(o) != ("this",):
+                        return False
+                    if x.get("cconst"):
+                        return False
+                    for g in sm.by_name.get(f.call_name(x), []):
+                        if len(g.params) == len(f.call_args(x)) and fld in sm.may_write(g):
+                            return True
+                return False
+            p = flow.Explorer(f, track_env=False).find_path(pos, lambda x: False, target=rewrites)
+            if p is None:
+                ctx.ok(rid, inst, f.where(a))
+            elif (f.clsn, fld) in R156_EXC:
+                ctx.excepted(rid, inst, f.where(a), R156_EXC[(f.clsn, fld)])
+            else:
+                ctx.violation(rid, inst, f.where(a), "after `%s` holds the value read from the stream a later step writes it again (path %s): the loaded object does not carry the dumped value of this member" % (fld, flow.render_path(f, p)))
+    ctx.floor(rid, n, 20, "members restored from the stream")
+
+
 def run(ctx):
     ctx.explanation = ("C15 writer/reader agreement over all ascii_dump/ascii_load pairs (linearised token, sub-object and member sequences; "
                        "status flag polarity); decides the agreement clause, not number I/O nor semantic equality of the loaded object")
@@ -629,5 +705,6 @@ def run(ctx):
     r15_3(ctx, fx, prs)
     r15_4(ctx, fx, prs)
     r15_5(ctx, prs)
+    r15_6(ctx)
 
 
